@@ -1,10 +1,16 @@
 #!/bin/bash
-# validate_auto.sh <id> — worktree mode unless the patch touches translated sources (then /repo mode under a lock)
+# validate_auto.sh <id> — worktree mode unless the patch changes what the translator generates (then /repo mode under a lock)
 cd "$(dirname "$0")/.."
 id=$1
-src=/tmp/mut/${id}_out; [ -f $src/patch.diff ] || src=seeded/$id
-if grep -q 'semiring.py\|parse/earley' $src/patch.diff; then
-  flock /tmp/mut/.repo.lock bash harness/validate_batch.sh $id
+src=/tmp/mut/${id}_out; [ -f $src/patch.diff ] || src=$PWD/seeded/$id
+wt=/tmp/mut/$id
+[ -d $wt ] || git -C /repo worktree add -q $wt HEAD
+git -C $wt checkout -q -- . && git -C $wt apply $src/patch.diff || { echo "$id: patch does not apply"; exit 2; }
+tmp=$(mktemp -d)
+GENLM_REPO=$wt VERIF_GEN_OUT=$tmp /venv/bin/python -c "from harness import translate; translate.run()" >/dev/null 2>&1
+if diff -rq $tmp lean/GenlmModel/Generated >/dev/null 2>&1; then
+  rm -rf $tmp; bash harness/validate_mutant_wt.sh $id
 else
-  bash harness/validate_mutant_wt.sh $id
+  rm -rf $tmp; git -C /repo worktree remove --force $wt 2>/dev/null
+  flock /tmp/mut/.repo.lock bash harness/validate_batch.sh $id
 fi
